@@ -37,7 +37,7 @@ def run_e2e(args):
     out = []
     for a in args:
         root = a["root"]
-        ds = sp.mk(root, fmt=a["fmt"], comp=a["comp"], eps=a["eps"])
+        ds = sp.mk(root, fmt=a["fmt"], comp=a["comp"], eps=a["eps"], hashes=None if a.get("hashes") is None else tuple(a["hashes"]))
         v = 0
         with ds.filler() as f:
             for gi, code in enumerate(a["groups"]):
@@ -109,6 +109,26 @@ def run_e2e(args):
                 rec["overlap"] = {"got": got, "want": want}
             except BaseException as e:  # noqa: BLE001
                 rec["overlap"] = {"got": got, "want": want, "error": f"{type(e).__name__}: {str(e)[:150]}"}
+        # the same handle after it has selected and iterated: a further session adds shards; every interface selects among the
+        # shards as they are now (reference: a freshly opened dataset), with no option, a large first-k and a per-metadata limit
+        if a.get("append"):
+            try:
+                with ds.filler() as f:
+                    for j in range(2 * a["eps"]):
+                        f.write_example(values=sp.val(5000 + j), split="train", custom_metadata=md_val(1 + 2 * (j // a["eps"]), flip=True))
+                fresh = Dataset(root)
+                rec["after_append"] = []
+                for kw in ({}, {"shards": 50}, {"custom_metadata_type_limit": 2}):
+                    want = sorted(sp.ident(e) for e in fresh.as_numpy_iterator(split="train", repeat=False, shuffle=0, **kw))
+                    for iface in I.IFACES:
+                        if not I.supports(iface, a["fmt"], a["comp"]) or not set(kw) <= ACCEPTS[iface]: continue
+                        try:
+                            got, _ = I.run_iface(ds, iface, "train", shuffle=0, T=2, **kw); got = sorted(got)
+                        except Exception as e:  # noqa: BLE001
+                            got = f"{type(e).__name__}: {str(e)[:100]}"
+                        rec["after_append"].append({"iface": iface, "kw": kw, "got": got, "want": want})
+            except Exception as e:  # noqa: BLE001
+                rec["after_append"] = [{"iface": "filler", "kw": {}, "got": f"append session: {type(e).__name__}: {str(e)[:150]}", "want": []}]
         out.append(rec)
         shutil.rmtree(root, ignore_errors=True)
     return out
@@ -148,7 +168,9 @@ def run(ctx):
         if not ctx.thorough:
             options = [options[j] for j in (0, 2, 3, 4, 6, 8, 9, 10)]
         cases.append({"root": str(ctx.scratch / f"c12_{i}"), "fmt": fmt, "comp": "", "eps": 2, "groups": groups, "options": options,
-                      "shuffles": [0, 3] if ctx.thorough else [0 if i % 2 else 3]})
+                      "shuffles": [0, 3] if ctx.thorough else [0 if i % 2 else 3],
+                      # no checksum algorithm is a legal configuration; the handle that selected and iterated keeps being used after a further session
+                      "hashes": [[], None, ["sha256"]][i % 3], "append": True})
     recs = []
     for i in range(0, len(cases), 3):
         recs += child.call("harness.checks.c12", "run_e2e", cases[i:i + 3], timeout=1800)
@@ -185,6 +207,13 @@ def run(ctx):
                     ctx.report({"kind": "iface-selection", "iface": iface, "option": sig_opt, "format_tfrec": r["case"]["fmt"] == "tfrec", "nested_metadata": nested},
                                f"{r['case']['fmt']} {key} with {opt}: yields {str(got)[:120]} but the selected shards {want} hold {exp_ids}", {"case": r["case"], "opt": opt, "got": got})
     for r in recs:
+        for x in r.get("after_append", []):
+            nruns += 1
+            if x["got"] != x["want"]:
+                ctx.report({"kind": "iface-selection", "iface": x["iface"], "option": "after-append:" + "+".join(sorted(x["kw"])) },
+                           f"{r['case']['fmt']} {x['iface']} {x['kw']} on a handle that iterated before a further session added shards: {str(x['got'])[:120]} instead of {str(x['want'])[:120]}",
+                           {"case": r["case"], "run": x})
+                break
         for x in r.get("inline", []):
             nruns += 1
             sel = [i for i, m in enumerate(r["mds"]) if m in set(x["keep"])]
